@@ -320,36 +320,18 @@ func c18GenCase(r *vlib.Rand, idx int) *c18Case {
 	for i, pi := range p {
 		shape := shapes[pi]
 		id := fmt.Sprintf("d%d", i)
-		d := c18Doc{ID: id, Shape: shape}
-		parentOf := map[string]string{}
-		hasChild := map[string]bool{}
-		for _, sr := range c18Shapes[shape] {
-			parentOf[sr.rev] = sr.parent
-			if sr.parent != "" {
-				hasChild[sr.parent] = true
-			}
-		}
+		var bodies []map[string]any
 		for j, sr := range c18Shapes[shape] {
-			rev := c18Rev{Doc: id, Rev: sr.rev, Parent: sr.parent, Deleted: sr.del, Leaf: !hasChild[sr.rev]}
-			for a := sr.parent; a != ""; a = parentOf[a] {
-				rev.Anc = append(rev.Anc, a[strings.Index(a, "-")+1:])
-			}
 			marker := fmt.Sprintf("%s/%s#%d", id, sr.rev, idx)
-			switch {
-			case sr.del && !sr.tombBody:
-				rev.Body = map[string]any{}
-			default:
-				rev.Body = c18RandBody(r, marker, pi == 3 || (j == 0 && r.Chance(1, 3)))
+			if sr.del && !sr.tombBody {
+				bodies = append(bodies, map[string]any{})
+			} else {
+				bodies = append(bodies, c18RandBody(r, marker, pi == 3 || (j == 0 && r.Chance(1, 3))))
 			}
-			if rev.Leaf {
-				d.Leafs = append(d.Leafs, rev.Rev)
-				if !rev.Deleted {
-					d.Live = true
-				}
-			}
-			queues[i] = append(queues[i], rev)
 		}
+		d, q := c18BuildDoc(id, shape, bodies)
 		c.Docs = append(c.Docs, d)
+		queues[i] = q
 	}
 	// interleave the per-document push sequences (parents always before children)
 	for {
@@ -390,6 +372,86 @@ func c18GenCase(r *vlib.Rand, idx int) *c18Case {
 		c.Principals[2].Roles = []string{"r1"}
 	}
 	return c
+}
+
+// c18BuildDoc lays out one document of the given shape with the given revision bodies (in shape order).
+func c18BuildDoc(id, shape string, bodies []map[string]any) (c18Doc, []c18Rev) {
+	d := c18Doc{ID: id, Shape: shape}
+	parentOf := map[string]string{}
+	hasChild := map[string]bool{}
+	for _, sr := range c18Shapes[shape] {
+		parentOf[sr.rev] = sr.parent
+		if sr.parent != "" {
+			hasChild[sr.parent] = true
+		}
+	}
+	var q []c18Rev
+	for j, sr := range c18Shapes[shape] {
+		rev := c18Rev{Doc: id, Rev: sr.rev, Parent: sr.parent, Deleted: sr.del, Leaf: !hasChild[sr.rev], Body: bodies[j]}
+		for a := sr.parent; a != ""; a = parentOf[a] {
+			rev.Anc = append(rev.Anc, a[strings.Index(a, "-")+1:])
+		}
+		if rev.Leaf {
+			d.Leafs = append(d.Leafs, rev.Rev)
+			if !rev.Deleted {
+				d.Live = true
+			}
+		}
+		q = append(q, rev)
+	}
+	return d, q
+}
+
+// c18FixedCases: the shortest history of each input class the generated cases found the resync to
+// mishandle (kept so that every run exercises them whatever the seed), plus two plain controls.
+func c18FixedCases(base int) []*c18Case {
+	princ := []c18Principal{
+		{Name: "r1", IsRole: true, Channels: []string{}}, {Name: "r2", IsRole: true, Channels: []string{"c2"}},
+		{Name: "u1", Channels: []string{}}, {Name: "u2", Channels: []string{"c2"}}, {Name: "u3", Channels: []string{"c3"}}, {Name: "u4", Channels: []string{"*"}},
+	}
+	type dd struct {
+		shape  string
+		bodies []map[string]any
+	}
+	mk := func(i int, f1, f2 c18Fn, regen bool, edits string, docs ...dd) *c18Case {
+		c := &c18Case{Idx: base + i, F1: f1, F2: f2, Regen: regen, Edits: []string{"fixed:" + edits}, Principals: princ}
+		for n, d := range docs {
+			doc, q := c18BuildDoc(fmt.Sprintf("d%d", n), d.shape, d.bodies)
+			c.Docs = append(c.Docs, doc)
+			c.Revs = append(c.Revs, q...)
+		}
+		return c
+	}
+	none := []string{}
+	B := func(kv ...any) map[string]any {
+		m := map[string]any{}
+		for i := 0; i+1 < len(kv); i += 2 {
+			m[kv[i].(string)] = kv[i+1]
+		}
+		return m
+	}
+	fa := c18Fn{Ch: "a", Acc: none, Rol: "ru-rr", Rej: "none", Tomb: "none"}
+	faRej := fa
+	faRej.Rej, faRej.RejK = "bottom", 1
+	fChA := c18Fn{Ch: "a", Acc: none, Rol: "none", Rej: "none", Tomb: "none"}
+	fChB := c18Fn{Ch: "b", Acc: none, Rol: "none", Rej: "none", Tomb: "none"}
+	fGrant := c18Fn{Ch: "a", Acc: []string{"u-gc"}, Rol: "none", Rej: "none", Tomb: "none"}
+	fGrantTomb := fGrant
+	fGrantTomb.Tomb = "old-grant"
+	return []*c18Case{
+		// role() before the throw: the rejected revision keeps its role grant
+		mk(0, fa, faRej, false, "role-grant-before-throw", dd{"live1", []map[string]any{B("a", "c0", "ru", "u1", "rr", "r1", "k", 1)}}, dd{"live1", []map[string]any{B("a", "c3", "k", 0)}}),
+		// only the conflicting leaf changes channels: document not rewritten
+		mk(1, fChA, fChB, false, "only-conflicting-leaf-changes", dd{"conflict2-late-loser", []map[string]any{B("a", "c0", "b", "c0", "k", 0), B("a", "c1", "b", "c1", "k", 0), B("a", "c2", "b", "c3", "k", 0)}}, dd{"live1", []map[string]any{B("a", "c3", "b", "c2", "k", 0)}}),
+		// grant removed, regenerate_sequences=true: principals keep the old grants
+		mk(2, fGrant, fChA, true, "grant-removed-with-regenerate-sequences", dd{"live1", []map[string]any{B("a", "c0", "u", "u1", "gc", "c1", "k", 0)}}, dd{"live1", []map[string]any{B("a", "c1", "k", 0)}}),
+		// control: the same without regenerate_sequences
+		mk(3, fGrant, fChA, false, "grant-removed", dd{"live1", []map[string]any{B("a", "c0", "u", "u1", "gc", "c1", "k", 0)}}, dd{"live1", []map[string]any{B("a", "c1", "k", 0)}}),
+		// a deletion that grants from oldDoc under f1 only: resync skips the tombstone
+		mk(4, fGrantTomb, fGrant, false, "deletion-grant-clause-removed", dd{"tomb", []map[string]any{B("a", "c0", "u", "u1", "gc", "c1", "k", 0), B()}}, dd{"live1", []map[string]any{B("a", "c1", "k", 0)}}),
+		// control: channel move on a conflicted document whose winner changes too
+		mk(5, fChA, fChB, false, "channel-move-conflict", dd{"conflict2", []map[string]any{B("a", "c0", "b", "c1", "k", 0), B("a", "c1", "b", "c2", "k", 0), B("a", "c2", "b", "c3", "k", 0)}}, dd{"live3", []map[string]any{B("a", "c3", "b", "c2", "k", 0), B("a", "c3", "b", "c1", "k", 0), B("a", "c0", "b", "c2", "k", 0)}}),
+	}
 }
 
 // shapeKey: the structural identity of a case (distinct non-trivial cases are counted by it)
